@@ -208,6 +208,85 @@ def impl_build(order, tags, dst, notincl=None):
         return out, 'ERR ' + type(e).__name__
 
 
+def impl_build_repo(branches, tags, dst):
+    """The same computation as build_branch_cascade runs it: a REAL repository holding these branches and tags,
+    discovered by BranchCascade.build(repo, dst) through `git branch` / `git tag`.
+    Returns (outcome, the tags in the order git lists them)."""
+    import shutil
+    import subprocess as sp
+    import tempfile
+    from bert_e.lib import git as lg
+    from bert_e.workflow.gitwaterflow import branches as B
+    d = tempfile.mkdtemp(prefix='c09repo_')
+    env = dict(os.environ, GIT_AUTHOR_NAME='x', GIT_AUTHOR_EMAIL='x@x', GIT_COMMITTER_NAME='x',
+               GIT_COMMITTER_EMAIL='x@x', GIT_CONFIG_NOSYSTEM='1', HOME=d)
+    repo = None
+    try:
+        def git(*a):
+            sp.run(('git',) + a, cwd=d, env=env, check=True, stdout=sp.DEVNULL, stderr=sp.DEVNULL)
+        git('init', '-q', '--initial-branch=trunk')
+        git('commit', '-q', '--allow-empty', '-m', 'root')
+        for b in branches:
+            git('branch', b)
+        for t in tags:
+            git('tag', t)
+        listed = sp.run(['git', 'tag'], cwd=d, env=env, check=True, stdout=sp.PIPE).stdout.decode().split('\n')[:-1]
+        repo = lg.Repository('file://unused')
+        repo.cmd_directory = d
+        c = B.BranchCascade()
+        try:
+            c.build(repo, B.branch_factory(repo, dst))
+            out = fmt_ok([b.name for b in c.dst_branches], c.ignored_branches, c.target_versions,
+                         [[b.name for b in p] for p in c.get_merge_paths()])
+        except Exception as e:
+            out = 'ERR ' + type(e).__name__
+        return out, listed
+    finally:
+        if repo is not None:
+            try:
+                repo.delete()
+            except Exception:
+                pass
+        shutil.rmtree(d, ignore_errors=True)
+
+
+def _repo_worker(args):
+    bset, tags, dst = args
+    out, listed = impl_build_repo(bset, tags, dst)
+    return bset, tags, dst, out, listed
+
+
+def run_repo_builds(ctx, pool):
+    """The discovery step: the cascade a pull-request evaluation really computes comes from BranchCascade.build on
+    the clone (git branch / git tag), not from hand-fed branches and tags.  A sample of the universe on real
+    repositories against model and specification fed with the same branches and the tags in git's listing order."""
+    rng = ctx.rng
+    sets = [s for s in branch_sets(True) if len(s) >= 2]
+    picked = rng.sample(sets, 10 if ctx.quick else 60) + [
+        ['development/4.0', 'development/4.1', 'development/4', 'development/10.0', 'hotfix/4.0.1'],
+        ['development/10.0', 'stabilization/10.0.2', 'development/4.0', 'stabilization/4.0.1']]
+    tasks = []
+    for bset in picked:
+        for tags in TAG_MENU + [TAG_POOL[:8]]:
+            dsts = bset if not ctx.quick else rng.sample(bset, min(2, len(bset)))
+            for dst in dsts:
+                tasks.append((bset, tags, dst))
+    results = pool.map(_repo_worker, tasks, chunksize=8)
+    answers = ctx.model.batch([req_build(sorted(b), listed, dst) for b, _t, dst, _o, listed in results])
+    seen = set()
+    for (bset, tags, dst, out, listed), ans in zip(results, answers):
+        model, spec = ans.split('#')
+        ctx.evaluations += 1
+        ctx.count('repo_build:' + (out.split(' ')[1] if out.startswith('ERR') else 'OK'))
+        inp = {'branches': sorted(bset), 'tags': listed, 'dst': dst, 'through': 'BranchCascade.build on a real repository'}
+        if sorted(listed) != sorted(tags):
+            ctx.mismatch(inp, listed, tags, 'harness: git tag lists the tags that were created')
+        if out != model:
+            ctx.mismatch(inp, out, model, 'BranchCascade.build (branches and tags discovered from a repository)')
+        if out != spec:
+            report_violation(ctx, inp, spec, out, seen)
+
+
 def impl_paths(order, tags):
     """build(repo) without destination followed by get_merge_paths (what QueueCollection receives)."""
     from bert_e.workflow.gitwaterflow import branches as B
@@ -556,6 +635,7 @@ def run(ctx, cases=None):
                     report_violation(ctx, inp, spec, impl, seen)
             for s in r['samples']:
                 ctx.sample(s)
+        run_repo_builds(ctx, pool)
     ctx.extra['branch_sets'] = len(sets)
 
 
